@@ -357,6 +357,7 @@ package cache
 //@   requires [nolocks] nolocks()
 //@   modifies shardOf(d, key).cache.view, shardOf(d, key).cache.dom
 //@   nopanic
+//@   ensures  [removed] !shardOf(d, key).cache.dom[keyOf(key)]
 //@   atunlock [gone]   !shardOf(d, key).cache.dom[keyOf(key)]
 //@   atunlock [others] forall k any :: k != keyOf(key) ==> shardOf(d, key).cache.dom[k] == at(lastlock, shardOf(d, key).cache.dom[k])
 //@                      && shardOf(d, key).cache.view[k] == at(lastlock, shardOf(d, key).cache.view[k])
@@ -434,9 +435,16 @@ package cache
 //@   loop 0: invariant [idx]  -1 <= $idx && $idx < len(opts)
 //@   loop 0: invariant [none] forall k int :: 0 <= k && k <= $idx ==> opts[k].Name != key
 
+// inductive invariant of a registry: it only holds non-nil dispatchers under string names
+//@ pred registryOK(ds *dispatchers) := forall k any :: ds.m.dom[k] ==> typeis(ds.m.vals[k], "*dispatcher") && unbox(ds.m.vals[k], "*dispatcher") != nil
+//@ pred dispatchersOK() := defaultDispatchers != nil && registryOK(defaultDispatchers)
+
 //@ func (ds *dispatchers) Reset(opts []DispatcherOption)
 //@   requires [recv] ds != nil
+//@   requires [registry] registryOK(ds)
 //@   modifies ds.m.dom, ds.m.vals
+//@   ensures [registry] registryOK(ds)
+//@   loop 0: invariant [registry] registryOK(ds)
 //@   ensures [exact]     forall k any :: typeis(k, "string") ==> (ds.m.dom[k] <==> configuredName(opts, unbox(k, "string")))
 //@   ensures [survivors] forall k any :: old(ds.m.dom[k]) && ds.m.dom[k] ==> ds.m.vals[k] == old(ds.m.vals[k])
 //@   ensures [others]    forall k any :: !typeis(k, "string") ==> ds.m.dom[k] == old(ds.m.dom[k])
@@ -447,3 +455,41 @@ package cache
 //@   loop 0: invariant [kept]  forall k any :: old(ds.m.dom[k]) && typeis(k, "string") && configuredName(opts, unbox(k, "string")) ==> ds.m.dom[k]
 //@   loop 0: invariant [survivors] forall k any :: old(ds.m.dom[k]) && ds.m.dom[k] ==> ds.m.vals[k] == old(ds.m.vals[k])
 //@   loop 0: invariant [others] forall k any :: !typeis(k, "string") ==> ds.m.dom[k] == old(ds.m.dom[k])
+
+// ---- purge (C18) -------------------------------------------------------------------------
+
+//@ func NewDispatchers(opts []DispatcherOption) (ds *dispatchers)
+//@   ensures [fresh] fresh(ds) && ds.m != nil
+//@   ensures [registry] registryOK(ds)
+//@   loop 0: modifies ds.m.dom, ds.m.vals
+//@   loop 0: invariant [idx] -1 <= $idx && $idx < len(opts) && ds != nil && fresh(ds) && ds.m != nil
+//@   loop 0: invariant [registry] registryOK(ds)
+
+//@ func (ds *dispatchers) Get(name string) (d *dispatcher)
+//@   requires [recv] ds != nil
+//@   requires [registry] registryOK(ds)
+//@   nopanic
+//@   ensures [found]  ds.m.dom[box(name)] ==> d != nil && box(d) == ds.m.vals[box(name)]
+//@   ensures [absent] !ds.m.dom[box(name)] ==> d == nil
+
+// one closure call of the all-caches purge: the key is removed from that dispatcher's shard
+//@ func (ds *dispatchers) RemoveHTTPCache(name string, key []byte)
+//@   requires [recv] ds != nil
+//@   requires [registry] registryOK(ds)
+//@   requires [nolocks] nolocks()
+//@   modifies lru.Cache::view, lru.Cache::dom
+//@   ensures [named]  name != "" && ds.m.dom[box(name)] ==> !shardOf(unbox(ds.m.vals[box(name)], "*dispatcher"), key).cache.dom[keyOf(key)]
+//@   ensures [absent] name != "" && !ds.m.dom[box(name)] ==> forall c *lru.Cache :: c.view == old(c.view) && c.dom == old(c.dom)
+//@   ensures [all]    name == "" ==> forall k any :: ds.m.dom[k] ==> !shardOf(unbox(ds.m.vals[k], "*dispatcher"), key).cache.dom[keyOf(key)]
+//@   ensures [locks]  nolocks()
+//@   rangeloop 0: invariant [done] forall k any :: $dom0[k] && $ridx[k] < $ri ==> !shardOf(unbox($vals0[k], "*dispatcher"), key).cache.dom[keyOf(key)]
+//@   rangeloop 0: invariant [same] nolocks() && $dom0 == ds.m.dom && $vals0 == ds.m.vals && registryOK(ds)
+
+//@ func RemoveHTTPCache(name string, key []byte)
+//@   requires [registry] dispatchersOK()
+//@   requires [nolocks] nolocks()
+//@   modifies lru.Cache::view, lru.Cache::dom
+//@   ensures [named]  name != "" && defaultDispatchers.m.dom[box(name)] ==> !shardOf(unbox(defaultDispatchers.m.vals[box(name)], "*dispatcher"), key).cache.dom[keyOf(key)]
+//@   ensures [all]    name == "" ==> forall k any :: defaultDispatchers.m.dom[k] ==> !shardOf(unbox(defaultDispatchers.m.vals[k], "*dispatcher"), key).cache.dom[keyOf(key)]
+//@   ensures [absent] name != "" && !defaultDispatchers.m.dom[box(name)] ==> forall c *lru.Cache :: c.view == old(c.view) && c.dom == old(c.dom)
+//@   ensures [locks]  nolocks()
